@@ -342,6 +342,13 @@ def trace_origin(name: str, source: str, *, __all__: bool = False) -> _TraceResu
                 with origin.open("r", encoding="utf-8") as stream:
                     module_source = stream.read()
 
+                # `import *` only binds names starting with an underscore if __all__ lists them
+                if name.startswith("_") and not any(
+                    isinstance(target, ast.Name) and target.id == "__all__"
+                    for target in core.walk(core.parse(module_source), ast.Name(ctx=ast.Store))
+                ):
+                    continue
+
                 if trace_origin(name, module_source, __all__=True):
                     return _TraceResult(core.get_code(node, source), node.lineno, node)
 
